@@ -1,6 +1,6 @@
 // Throw-away fidelity check: the Lean model of Cx.Model.Fast (through cxdrv) vs the real Go functions
 // around the fixes (ExtractCharClassRanges / isValidCompositePart / anchored literal / BranchDispatcher).
-// `go run .` runs everything, `go run . bd` only the BranchDispatcher part.
+// `go run .` runs everything, `go run . bd` only the BranchDispatcher part, `go run . fb` only the first-byte filter (fb.go).
 package main
 
 import (
@@ -107,6 +107,9 @@ var pats = []pat{
 type req struct {
 	line, want, kind, pat string
 }
+
+// reqHooks[i]: the answer to request i is handed over instead of being compared with `want`
+var reqHooks = map[int]func(ans string){}
 
 func hays(alpha string, L int) [][]byte {
 	var out [][]byte
@@ -340,7 +343,11 @@ func main() {
 	}
 	accepted := map[string][]string{}
 	runPats := pats
-	if len(os.Args) > 1 && os.Args[1] == "bd" {
+	mode := ""
+	if len(os.Args) > 1 {
+		mode = os.Args[1]
+	}
+	if mode == "bd" || mode == "fb" {
 		runPats = nil
 	}
 	for _, pt := range runPats {
@@ -455,7 +462,14 @@ func main() {
 		}
 	}
 
-	nbd, bdAcc := bdCheck(&reqs, propAdd)
+	nbd, bdAcc := 0, []string(nil)
+	if mode != "fb" {
+		nbd, bdAcc = bdCheck(&reqs, propAdd)
+	}
+	fbReport := func() {}
+	if mode != "bd" {
+		fbReport = fbCheck(&reqs)
+	}
 
 	// run the driver
 	cmd := exec.Command("../.lake/build/bin/cxdrv")
@@ -488,6 +502,10 @@ func main() {
 			stats[r.kind] = s
 		}
 		s.n++
+		if hook := reqHooks[i-1]; hook != nil {
+			hook(sc.Text())
+			continue
+		}
 		if sc.Text() != r.want {
 			s.bad++
 			if s.bad <= 8 {
@@ -518,5 +536,8 @@ func main() {
 	for _, g := range []string{"ccs", "comp", "anch"} {
 		fmt.Printf("  accepted by %s predicate (%d): %q\n", g, len(accepted[g]), accepted[g])
 	}
-	fmt.Printf("  accepted by IsBranchDispatchPattern (%d of %d): %q\n", len(bdAcc), nbd, bdAcc)
+	if mode != "fb" {
+		fmt.Printf("  accepted by IsBranchDispatchPattern (%d of %d): %q\n", len(bdAcc), nbd, bdAcc)
+	}
+	fbReport()
 }
